@@ -219,7 +219,11 @@ fn anchor_probe(pred: i64, use_dt: bool, acc: &mut Acc) {
     if got != Out::Val((2022, 5, 2)) {
         acc.violation(if use_dt { "DateTime::as_ymd" } else { "Date::as_ymd" }, "readback-depends-on-the-previous-call", json!({"day": ANCHOR_DAY, "pred": pred, "datetime": use_dt}), "(2022, 5, 2)".into(), got.show());
     }
-    // and in the other direction: a leap day that exists and one that does not
+    // and in the other direction: a leap day that exists and one that does not (after every fourth
+    // day of the sweep - still several days of every month of every year)
+    if pred.rem_euclid(4) != 0 {
+        return;
+    }
     acc.transitions += 2;
     let made = if use_dt { call(|| (DateTime::from_ymd(2024, 2, 29).is_ok(), DateTime::from_ymd(2023, 2, 29).is_ok())) } else { call(|| (Date::from_ymd(2024, 2, 29).is_ok(), Date::from_ymd(2023, 2, 29).is_ok())) };
     if made != Out::Val((true, false)) {
